@@ -57,6 +57,7 @@ func genFuncFacts(repo, out string, ps []*packages.Package) {
 		{"encoding", "encoder.go"}, {"spec", "encoding.go"}}, kindFiles...)
 	whole := map[string]bool{"encoding.go": true, "json.go": true, "time.go": true, "assembler.go": true, "group.go": true,
 		"compiler.go": true, "decoder.go": true, "encoder.go": true}
+	all := func(base, name string) bool { return true }
 	groups := []funcGroup{
 		{"ValueFuncs", "pkg/types: every declaration of value.go and of the kind files that is not part of the codec (C14: Equal / Compare / Hash / Kind / Interface and the constructors)",
 			kindFiles, func(base, name string) bool { return !codecName.MatchString(name) }},
@@ -67,6 +68,22 @@ func genFuncFacts(repo, out string, ps []*packages.Package) {
 		{"BindFuncs", "pkg/template, pkg/spec/spec.go, pkg/spec/unstructured.go, pkg/value/value.go (C18)",
 			[][2]string{{"template", "template.go"}, {"template", "node.go"}, {"spec", "spec.go"}, {"spec", "unstructured.go"}, {"value", "value.go"}},
 			func(base, name string) bool { return true }},
+		{"PacketFuncs", "pkg/packet/packet.go, reader.go, writer.go (C01; C03, C05, C19)",
+			[][2]string{{"packet", "packet.go"}, {"packet", "reader.go"}, {"packet", "writer.go"}}, all},
+		{"FlowFuncs", "pkg/packet/tracer.go, readgroup.go, pkg/node/onetoone.go, onetomany.go, manytoone.go, pkg/port/pipe.go (C02; C03, C05)",
+			[][2]string{{"packet", "tracer.go"}, {"packet", "readgroup.go"}, {"node", "onetoone.go"}, {"node", "onetomany.go"}, {"node", "manytoone.go"}, {"port", "pipe.go"}}, all},
+		{"PortFuncs", "pkg/port/inport.go, outport.go (C05; C03, C06, C19)",
+			[][2]string{{"port", "inport.go"}, {"port", "outport.go"}}, all},
+		{"ProcessFuncs", "pkg/process/process.go, exithook.go, local.go (C04, C05)",
+			[][2]string{{"process", "process.go"}, {"process", "exithook.go"}, {"process", "local.go"}}, all},
+		{"AgentFuncs", "pkg/runtime/agent.go, breakpoint.go, debugger.go (C19; C05)",
+			[][2]string{{"runtime", "agent.go"}, {"runtime", "breakpoint.go"}, {"runtime", "debugger.go"}}, all},
+		{"RuntimeFuncs", "pkg/runtime/runtime.go, pkg/scheme/scheme.go (C09; C16)",
+			[][2]string{{"runtime", "runtime.go"}, {"scheme", "scheme.go"}}, all},
+		{"StoreFuncs", "pkg/store/store.go, segment.go, stream.go, executionplan.go, helper.go, cursor.go (C10, C11, C12, C13)",
+			[][2]string{{"store", "store.go"}, {"store", "segment.go"}, {"store", "stream.go"}, {"store", "executionplan.go"}, {"store", "helper.go"}, {"store", "cursor.go"}}, all},
+		{"SymbolFuncs", "pkg/symbol/table.go, symbol.go, loadhook.go, unloadhook.go, pkg/hook/hook.go (C06, C07, C08)",
+			[][2]string{{"symbol", "table.go"}, {"symbol", "symbol.go"}, {"symbol", "loadhook.go"}, {"symbol", "unloadhook.go"}, {"hook", "hook.go"}}, all},
 	}
 	for _, g := range groups {
 		var b strings.Builder
